@@ -42,8 +42,16 @@ finally:
 dst = "/verif/seeded/%s" % name
 os.makedirs(dst, exist_ok=True)
 for f in ("patch.diff", "demo.py"):
-    if os.path.exists(os.path.join(cand, f)):
+    if os.path.exists(os.path.join(cand, f)) and os.path.abspath(cand) != os.path.abspath(dst):
         shutil.copy(os.path.join(cand, f), dst)
+try:
+    prev = json.load(open(os.path.join(dst, "meta.json")))["verification"]["checks"]
+    for p, v in prev.items():
+        if p not in result["checks"]:
+            v["from_earlier_run"] = True
+            result["checks"][p] = v
+except Exception:
+    pass
 meta.update({"verification": result, "ran": "tools/seeded.py (demo on /repo and on patched scratch worktree; ./check with PBT_REPO=<worktree>)"})
 json.dump(meta, open(os.path.join(dst, "meta.json"), "w"), indent=1)
 print(json.dumps(result, indent=1))
